@@ -133,7 +133,7 @@ def run_executor(binary, family, n, seed, tier, procs=None, extra_env=None, plan
 # events the observable layer consumes (everything else is dropped before TLC sees the trace)
 OBS_EVENTS = {"reset", "cmd_call", "cmd_ret", "tg_probe", "tg_probe_reply", "cli_send", "cli_recv", "cli_closed",
               "tg_beg", "tg_end", "end", "panic", "harness_error", "y_routed", "e_install", "e_update_lb",
-              "y_pre_claim", "y_gate_passed", "e_pause_state", "e_claim", "e_claim_refused", "e_claim_none",
+              "y_pre_claim", "y_wait_snapshot", "y_wait_released", "e_remove", "e_pause_state", "e_claim", "e_claim_refused", "e_claim_none",
               "file_obs", "cfg_obs"}
 
 
@@ -234,7 +234,7 @@ def match_known(prop, v, known):
             continue
         if "inv" in k and v["inv"] not in k["inv"].split(","):
             continue
-        if k.get("sig", "") != v.get("sig", ""):
+        if k.get("sig", "") not in v.get("sig", "").split("+"):
             continue
         if not v.get("sig"):
             # a finding without a signature must name its subject pattern explicitly
@@ -260,3 +260,55 @@ def save_replay(prop, n, obj):
     path = os.path.join(d, "%d.schedule.json" % n)
     json.dump(obj, open(path, "w"))
     return path
+
+
+# ---- design-model runs -------------------------------------------------------------
+
+def spec_copy(tag):
+    wd = os.path.join(scratch(), "spec-%s-%d" % (tag, int(time.time() * 1e6) % 10**9))
+    shutil.copytree(SPEC, wd)
+    return wd
+
+
+def cfg_with(wd, base_cfg, name, invariants=None, constants=None, drop_symmetry=False):
+    """Derive a cfg from base_cfg: replace the INVARIANTS block and/or individual constants."""
+    txt = open(os.path.join(wd, base_cfg)).read()
+    if invariants is not None:
+        head = txt.split("INVARIANTS")[0]
+        tail = txt.split("INVARIANTS")[1]
+        rest = [l for l in tail.splitlines() if l and not l.startswith(" ")]
+        txt = head + "INVARIANTS\n" + "".join("  %s\n" % i for i in invariants) + "\n".join(rest) + "\n"
+    for k, val in (constants or {}).items():
+        txt = re.sub(r"(?m)^(\s*%s\s*=\s*).*$" % re.escape(k), lambda m: m.group(1) + val, txt)
+    if drop_symmetry:
+        txt = re.sub(r"(?m)^SYMMETRY.*\n", "", txt)
+    open(os.path.join(wd, name), "w").write(txt)
+    return name
+
+
+def start_tlc(wd, module, cfg, workers=1, timeout=600, extra=None):
+    md = tempfile.mkdtemp(prefix="md-", dir=scratch())
+    cmd = ["timeout", str(timeout), "tlc", "-workers", str(workers), "-metadir", md, "-config", cfg] + (extra or []) + [module]
+    p = subprocess.Popen(cmd, cwd=wd, stdout=subprocess.PIPE, stderr=subprocess.STDOUT, text=True)
+    p._md = md
+    return p
+
+
+def finish_tlc(p):
+    o, _ = p.communicate()
+    shutil.rmtree(p._md, ignore_errors=True)
+    return p.returncode, o
+
+
+def tlc_verdict(rc, out):
+    """'ok' | 'violated:<invariant>' | 'deadlock' | 'timeout' | 'error'"""
+    if rc == 0:
+        return "ok"
+    m = re.search(r"Invariant (\w+) is violated", out)
+    if m:
+        return "violated:" + m.group(1)
+    if "Deadlock reached" in out:
+        return "deadlock"
+    if rc == 124:
+        return "timeout"
+    return "error"
